@@ -7,7 +7,7 @@ keys, values.  `PartialEq` (derived) is `Term.eqv`; `Hash` is `hashTokens`.
 -/
 namespace Edp
 
-def thenO (a b : Ordering) : Ordering := match a with | .eq => b | o => o
+abbrev thenO (a b : Ordering) : Ordering := a.then b
 
 /-- lexicographic order of byte/number lists, shorter prefix first (Rust slice `cmp`) -/
 def lexCmp : List Nat → List Nat → Ordering
@@ -59,19 +59,20 @@ def F64.isZero (f : F64) : Bool := f.exp == 0 && f.frac == 0
 /-- finite `f` = `mant * 2^expo` -/
 def F64.mant (f : F64) : Nat := if f.exp == 0 then f.frac else f.frac + 2 ^ 52
 def F64.expo (f : F64) : Int := if f.exp == 0 then -1074 else (f.exp : Int) - 1075
+def F64.sign (f : F64) : Int := if f.isZero then 0 else if f.neg then -1 else 1
 
 /-- compare the natural number `v` with `m * 2^e`, exactly -/
 def cmpNatDyadic (v m : Nat) (e : Int) : Ordering :=
   if e ≥ 0 then compare v (m * 2 ^ e.toNat) else compare (v * 2 ^ (-e).toNat) m
 
-def ordRev : Ordering → Ordering | .lt => .gt | .gt => .lt | .eq => .eq
+abbrev ordRev (o : Ordering) : Ordering := o.swap
 
 /-- `compare_signed_magnitude_float`: integer (sign, magnitude) against a float; NaN sorts last -/
 def cmpSignedMagFloat (neg : Bool) (d : Bytes) (bits : Nat) : Ordering :=
   let f := f64 bits
   if f.isNaN then .lt else
   let si := signum neg d
-  let sf : Int := if f.isZero then 0 else if f.neg then -1 else 1
+  let sf : Int := f.sign
   thenO (compare si sf)
     (if si == 0 then .eq
      else if f.isInf then (if f.neg then .gt else .lt)
@@ -80,21 +81,20 @@ def cmpSignedMagFloat (neg : Bool) (d : Bytes) (bits : Nat) : Ordering :=
 
 def cmpIntFloat (i : Int) (bits : Nat) : Ordering := cmpSignedMagFloat (i < 0) (natDigits i.natAbs) bits
 
+/-- two non-NaN floats by value: sign first, then (exponent, fraction) which orders magnitudes (infinity has exponent 2047) -/
+def cmpNonNaN (fa fb : F64) : Ordering :=
+  thenO (compare fa.sign fb.sign)
+    (if fa.sign = 0 then .eq
+     else if fa.sign < 0 then (thenO (compare fa.exp fb.exp) (compare fa.frac fb.frac)).swap
+     else thenO (compare fa.exp fb.exp) (compare fa.frac fb.frac))
+
 /-- float against float as the code has it: NaN = NaN, NaN after everything, otherwise by value
 (`partial_cmp`, taken to be comparison of the real values, with -0.0 = 0.0) -/
 def cmpFloat (a b : Nat) : Ordering :=
-  let fa := f64 a; let fb := f64 b
-  if fa.isNaN && fb.isNaN then .eq
-  else if fa.isNaN then .gt
-  else if fb.isNaN then .lt
-  else
-    let sa : Int := if fa.isZero then 0 else if fa.neg then -1 else 1
-    let sb : Int := if fb.isZero then 0 else if fb.neg then -1 else 1
-    thenO (compare sa sb)
-      (if sa == 0 then .eq else
-        -- same sign, both non-zero: magnitudes by (exp, frac), i.e. by value; infinities have exp 2047
-        let m := thenO (compare fa.exp fb.exp) (compare fa.frac fb.frac)
-        if sa < 0 then ordRev m else m)
+  if (f64 a).isNaN && (f64 b).isNaN then .eq
+  else if (f64 a).isNaN then .gt
+  else if (f64 b).isNaN then .lt
+  else cmpNonNaN (f64 a) (f64 b)
 
 /-! ### terms -/
 
